@@ -204,6 +204,7 @@ def uf_axioms(apps, max_rounds=5, defs=None, focus=None):
                     out.append((x > 0) == (t > 0))
                     out.append((x == 0) == (t == 0))
     out.append(z3.And(LOG10E10 > z3.RealVal('4.3429448'), LOG10E10 < z3.RealVal('4.3429449')))
+    out.append(z3.And(z3.Real('PI') > z3.RealVal('3.14159'), z3.Real('PI') < z3.RealVal('3.1416')))
     return out
 
 
@@ -355,12 +356,24 @@ def build_hyps(engine, pc, univ, idx0, apps0, sums, path=None, goal=None, rounds
     if goal is not None:
         extra.append(goal)
     sum_lem = []
+    n_pc = len(path.pc) if path is not None else 0
+    if sums:
+        # only the sums the VC talks about (their constant occurs in the goal or the path condition)
+        present = {t.get_id() for t in walk(list(pc) + extra + [u.tmpl for u in univ])}
+        sums = [s for s in sums if s.c.get_id() in present]
     for s in sums:
         sum_lem += s.lemmas(engine, path)
     for a in range(len(sums)):
         for b in range(a + 1, len(sums)):
             sum_lem += sums[a].pair_lemmas(sums[b], path)
     base += sum_lem
+    if path is not None:
+        # definitions introduced while the summands were evaluated at their witnesses (named terms, list equalities):
+        # conservative, kept for every later VC of the path (element closures are memoised)
+        late = path.__dict__.setdefault('late_defs', [])
+        if len(path.pc) > n_pc:
+            late.extend(path.pc[n_pc:])
+        base += late
     import os as _os
     rounds = int(_os.environ.get('PYVC_ROUNDS', rounds))
     inst = []
